@@ -131,6 +131,9 @@ func (m *UnsubscribeMessage) Decode(src []byte) (int, error) {
 	m.packetID = src[total : total+2]
 	total += 2
 
+	// the message may have been used before: the list is that of this packet only
+	m.topics = nil
+
 	remlen := int(m.remlen) - (total - hn)
 	for remlen > 0 {
 		t, n, err := readLPBytes(src[total:])
